@@ -239,6 +239,13 @@ Fixpoint clusteredb_from (prev : option row) (seen : list row) (l : list row) : 
   end.
 Definition clusteredb (l : list row) : bool := clusteredb_from None [] l.
 
+(* the two ordered modes: InputOrderMode::Sorted (every group column is an ordering column) and
+   InputOrderMode::PartiallySorted(idx) *)
+Definition ord_start (full : bool) (idx : list nat) : gord := if full then OFull FStart else OPartial idx PStart.
+Definition ord_sk (full : bool) (idx : list nat) : row -> row := if full then (fun k => k) else proj idx.
+Definition sorted_on {A} (full : bool) (idx : list nat) (l : list (row * A)) : Prop :=
+  clustered (map (fun p : row * A => ord_sk full idx (fst p)) l).
+
 (* ------------------------------------------------------------------ strategies expressed with C02's stage operators *)
 (* spill: every run = the partial states of one segment of the input, sorted by key with any comparison [leb];
    replay = k-way merge of the runs fed to the final stage *)
@@ -259,6 +266,20 @@ Definition skip_partial_out (fn : agg_fn) (ps : list (row * value) * list (row *
    state per group of each segment *)
 Definition segmented_partial (fn : agg_fn) (segs : list (list (row * value))) : list (row * res pstate) :=
   concat (map (partial_groups fn) segs).
+
+(* one ordered segment of the partial stage: any feed schedule, closed by take_state_batch; its output rows *)
+Definition seg_out {A} (full : bool) (idx : list nat) (bs : nat) (evs : list (ev A)) : groups A :=
+  match ot_run bs (evs ++ [EvTake]) (OTab [] (ord_start full idx)) with
+  | Some (outs, _) => concat outs
+  | None => []
+  end.
+(* the accumulators' view of emitted groups: state (partial stage) / value (single and final stage) per group *)
+Definition states_of (fn : agg_fn) (gs : groups value) : list (row * res pstate) :=
+  map (fun g => (fst g, agg_partial fn (snd g))) gs.
+Definition values_of (fn : agg_fn) (gs : groups value) : list (row * res value) :=
+  map (fun g => (fst g, agg_apply fn (snd g))) gs.
+Definition finals_of (fn : agg_fn) (gs : groups (res pstate)) : list (row * res value) :=
+  map (fun g => (fst g, ss <- mapM (fun s => s) (snd g);; agg_final fn (agg_merge_all fn ss))) gs.
 
 (* GROUPING SETS / ROLLUP / CUBE (evaluate_group_by + group_id_array): a set is a mask (true = the column is replaced by
    NULL); grouping id = the mask read as a binary number, first column most significant, plus ordinal << #columns
@@ -389,8 +410,7 @@ Inductive c06_case :=
 Definition c06_check (c : c06_case) : bool :=
   match c with
   | C06Ord full idx ops obs =>
-      let o := if full then OFull FStart else OPartial (map Z.to_nat idx) PStart in
-      list_eqb obs_eqb (ops_run ops o) obs
+      list_eqb obs_eqb (ops_run ops (ord_start full (map Z.to_nat idx))) obs
   | C06Agg aggs sets keys vals runs =>
       let rows := combine keys vals in
       match (match sets with [] => c06_ref aggs rows | _ => c06_ref_sets aggs sets rows end) with
@@ -398,9 +418,8 @@ Definition c06_check (c : c06_case) : bool :=
       | Err _ => false
       end
   | C06Stream aggs full idx bs batches obs =>
-      let o := if full then OFull FStart else OPartial (map Z.to_nat idx) PStart in
-      let sk := if full then (fun k : row => k) else proj (map Z.to_nat idx) in
-      clusteredb (map (fun p : row * value => sk (fst p)) (concat batches)) &&
+      let o := ord_start full (map Z.to_nat idx) in
+      clusteredb (map (fun p : row * value => ord_sk full (map Z.to_nat idx) (fst p)) (concat batches)) &&
       match stream_model aggs o (Z.to_nat bs) batches with
       | Some outs => outs_eqb outs obs
       | None => false
